@@ -17,13 +17,22 @@ COLLISION = {"times": ["0", "2", "1"], "comps": ["S", "SXage_y"], "inf": ["S"],
 def run(tier, seed):
     n = tier_n(tier, 220, 3000)
     g = gen.Gen(seed * 7919 + 12)
-    progs = [g.program({"nstrat": g.rng.choice([0, 1, 2, 2, 3]), "p_post": 0.5,
+    progs = [g.program({"nstrat": g.rng.choice([0, 1, 2, 2, 3]), "p_post": 0.5, "shuffle_comps": 0.5,
                         "h": g.rng.choice(["1", "1/2", "1/4", "2", "3/8", "3/2"])}) for _ in range(n)]
     progs.append(dict(COLLISION))
     for p in progs:
         pv = g.params_values(small=True)
+        pops = [o for o in p["ops"] if o["op"] in ("pop", "arraypop")]
+        first_strat = next((i for i, o in enumerate(p["ops"]) if o["op"] == "strat"), len(p["ops"]))
+        dist_ = None
+        literal = lambda d: all(isinstance(v, str) and v != "t" for v in (d or {}).values())
+        # (splits and rebalances given as parameters are used as they are, normalised or not: totals are then not preserved)
+        normalised = all(literal(o.get("split")) for o in p["ops"] if o["op"] == "strat") and \
+            all(literal(dict(o["props"])) if not isinstance(o["props"], dict) else literal(o["props"]) for o in p["ops"] if o["op"] == "rebalance")
+        if normalised and pops and all(o["op"] == "pop" for o in pops) and all(i < first_strat for i, o in enumerate(p["ops"]) if o["op"] == "pop"):
+            dist_ = pops[-1]["dist"]
         p["obs"] = [{"obs": "struct"}, {"obs": "initpop", "params": pv},
-                    {"obs": "oracle", "name": "c12", "params": pv, "times": p["times"]}]
+                    {"obs": "oracle", "name": "c12", "params": pv, "times": p["times"], "dist": dist_}]
     progs.append(carrier([{"obs": "oracle", "name": "c12_dates", "seed": seed, "n": 20 if tier == "quick" else 300}]))
     progs.append(carrier([{"obs": "oracle", "name": "c12_grid", "seed": seed, "n": 40 if tier == "quick" else 600}]))
     # the collision probe is compared on the implementation only (the model identifies compartments
